@@ -3,7 +3,8 @@
 //! well-behaved client must still be served and the serving future must still be pending.
 #![allow(dead_code)]
 
-use std::sync::Arc;
+use std::sync::atomic::{AtomicUsize, Ordering};
+use std::sync::{Arc, Mutex};
 use std::io::Write;
 use std::time::Duration;
 
@@ -881,4 +882,236 @@ impl QueueAcceptEngine {
 pub fn queue_strategy() -> impl proptest::strategy::Strategy<Value = QueueCase> {
     use proptest::prelude::*;
     (any::<bool>(), 0u8..2, proptest::collection::vec(prop_oneof![2 => Just(0u8), 7 => 1u8..9], 1..7), any::<bool>()).prop_map(|(tls, proto, clients, graceful)| QueueCase { tls, proto, clients, graceful })
+}
+
+// ------------------------------------------------------------------------------------------------
+// C07 with a make-service that takes its time: the service for a freshly accepted connection becomes
+// available only after a delay, or the make-service is not ready for a while. The signal may resolve
+// while the server is in that state - it must still end the accept loop there and then, tell the open
+// connections to shut down, and must not serve the connection whose service arrives after the signal.
+
+#[derive(Clone, Debug, Serialize, Deserialize, PartialEq)]
+pub struct MakeGateCase {
+    pub proto: u8,
+    /// clients: (start ms, delay of the make-service future for this connection in ms; 255 = never)
+    pub clients: Vec<(u8, u8)>,
+    pub signal_ms: u8,
+    /// the first client keeps its connection open after its response (idle keep-alive at the signal)
+    pub idle_first: bool,
+    /// the make-service reports not-ready (poll_ready pending) for this long after every connection it made
+    pub not_ready_ms: u8,
+}
+
+struct GateMake {
+    delays: Arc<Vec<u8>>,
+    made: Arc<AtomicUsize>,
+    log: Arc<Mutex<Vec<(usize, u64, u64)>>>, // (connection, accepted at, service available at)
+    t0: tokio::time::Instant,
+    not_ready: u64,
+    ready_at: Option<std::pin::Pin<Box<tokio::time::Sleep>>>,
+}
+
+impl<'a> tower::Service<&'a hyperdriver::server::conn::Stream> for GateMake {
+    type Response = PermittedSvcPlain;
+    type Error = std::convert::Infallible;
+    type Future = std::pin::Pin<Box<dyn std::future::Future<Output = Result<PermittedSvcPlain, std::convert::Infallible>> + Send>>;
+    fn poll_ready(&mut self, cx: &mut std::task::Context<'_>) -> std::task::Poll<Result<(), Self::Error>> {
+        if let Some(s) = self.ready_at.as_mut() {
+            if std::future::Future::poll(s.as_mut(), cx).is_pending() {
+                return std::task::Poll::Pending;
+            }
+            self.ready_at = None;
+        }
+        std::task::Poll::Ready(Ok(()))
+    }
+    fn call(&mut self, _conn: &'a hyperdriver::server::conn::Stream) -> Self::Future {
+        let id = self.made.fetch_add(1, Ordering::SeqCst);
+        let delay = self.delays.get(id).copied().unwrap_or(0);
+        let log = self.log.clone();
+        let t0 = self.t0;
+        let accepted = t0.elapsed().as_millis() as u64;
+        if self.not_ready > 0 {
+            self.ready_at = Some(Box::pin(tokio::time::sleep(Duration::from_millis(self.not_ready))));
+        }
+        Box::pin(async move {
+            if delay == 255 {
+                std::future::pending::<()>().await;
+            }
+            if delay > 0 {
+                tokio::time::sleep(Duration::from_millis(delay as u64)).await;
+            }
+            log.lock().unwrap().push((id, accepted, t0.elapsed().as_millis() as u64));
+            Ok(PermittedSvcPlain)
+        })
+    }
+}
+
+#[derive(Clone)]
+pub struct PermittedSvcPlain;
+impl tower::Service<http::Request<hyperdriver::Body>> for PermittedSvcPlain {
+    type Response = http::Response<hyperdriver::Body>;
+    type Error = std::io::Error;
+    type Future = std::pin::Pin<Box<dyn std::future::Future<Output = Result<Self::Response, Self::Error>> + Send>>;
+    fn poll_ready(&mut self, _: &mut std::task::Context<'_>) -> std::task::Poll<Result<(), Self::Error>> {
+        std::task::Poll::Ready(Ok(()))
+    }
+    fn call(&mut self, req: http::Request<hyperdriver::Body>) -> Self::Future {
+        Box::pin(async move {
+            use http_body_util::BodyExt;
+            let _ = req.into_body().collect().await;
+            Ok(http::Response::new(hyperdriver::Body::from("gate-ok".to_string())))
+        })
+    }
+}
+
+pub struct MakeGateEngine;
+
+impl Engine for MakeGateEngine {
+    type Case = MakeGateCase;
+    fn name(&self) -> &'static str {
+        "makegate"
+    }
+    fn run_case(&self, c: &MakeGateCase) -> CaseReport {
+        use tokio::io::{AsyncReadExt, AsyncWriteExt};
+        let mut rep = CaseReport::default();
+        let _ = crate::panichook::take_all();
+        let rt = tokio::runtime::Builder::new_current_thread().enable_time().start_paused(true).build().unwrap();
+        let c2 = c.clone();
+        type ClientOut = (usize, u64, Vec<u8>, bool, u64); // (client, connected at, bytes, saw end of stream, ms of the end)
+        let res = std::panic::catch_unwind(std::panic::AssertUnwindSafe(|| {
+            rt.block_on(async move {
+                let t0 = tokio::time::Instant::now();
+                let (client, incoming) = hyperdriver::stream::duplex::pair();
+                let log: Arc<Mutex<Vec<(usize, u64, u64)>>> = Default::default();
+                let make = GateMake { delays: Arc::new(c2.clients.iter().map(|(_, d)| *d).collect()), made: Arc::new(AtomicUsize::new(0)), log: log.clone(), t0, not_ready: c2.not_ready_ms as u64, ready_at: None };
+                let base = hyperdriver::Server::builder::<hyperdriver::Body>().with_incoming(incoming);
+                let sig = Duration::from_millis(c2.signal_ms as u64);
+                let done: Arc<Mutex<Option<(Result<(), String>, u64)>>> = Default::default();
+                let done2 = done.clone();
+                let server = if c2.proto % 2 == 0 {
+                    let s = base.with_http1().with_make_service(make).with_tokio().with_graceful_shutdown(tokio::time::sleep(sig));
+                    tokio::spawn(async move {
+                        let r = s.await.map_err(|e| e.to_string());
+                        *done2.lock().unwrap() = Some((r, t0.elapsed().as_millis() as u64));
+                    })
+                } else {
+                    let s = base.with_auto_http().with_make_service(make).with_tokio().with_graceful_shutdown(tokio::time::sleep(sig));
+                    tokio::spawn(async move {
+                        let r = s.await.map_err(|e| e.to_string());
+                        *done2.lock().unwrap() = Some((r, t0.elapsed().as_millis() as u64));
+                    })
+                };
+                let mut tasks = vec![];
+                for (i, (start, _)) in c2.clients.iter().cloned().enumerate() {
+                    let client = client.clone();
+                    let idle = c2.idle_first && i == 0;
+                    tasks.push(tokio::spawn(async move {
+                        tokio::time::sleep(Duration::from_millis(start as u64)).await;
+                        let Ok(Ok(mut s)) = tokio::time::timeout(Duration::from_secs(2), client.connect(4096)).await else {
+                            return (i, u64::MAX, vec![], true, t0.elapsed().as_millis() as u64);
+                        };
+                        let connected = t0.elapsed().as_millis() as u64;
+                        let req: &[u8] = if idle { b"GET /x HTTP/1.1\r\nhost: x\r\n\r\n" } else { b"GET /x HTTP/1.1\r\nhost: x\r\nconnection: close\r\n\r\n" };
+                        let _ = s.write_all(req).await;
+                        let mut got = vec![];
+                        let mut b = [0u8; 256];
+                        let mut eof = false;
+                        // (an idle keep-alive client waits for the server to close; 3 virtual seconds bound it)
+                        loop {
+                            match tokio::time::timeout(Duration::from_secs(3), s.read(&mut b)).await {
+                                Ok(Ok(0)) | Ok(Err(_)) => {
+                                    eof = true;
+                                    break;
+                                }
+                                Ok(Ok(n)) => got.extend_from_slice(&b[..n]),
+                                Err(_) => break,
+                            }
+                        }
+                        (i, connected, got, eof, t0.elapsed().as_millis() as u64)
+                    }));
+                }
+                let mut outs: Vec<ClientOut> = vec![];
+                for t in tasks {
+                    if let Ok(Ok(o)) = tokio::time::timeout(Duration::from_secs(10), t).await {
+                        outs.push(o);
+                    }
+                }
+                tokio::time::sleep(Duration::from_millis(50)).await;
+                server.abort();
+                let d = done.lock().unwrap().clone();
+                let l = log.lock().unwrap().clone();
+                (outs, d, l)
+            })
+        }));
+        drop(rt);
+        for (loc, msg) in crate::panichook::take_all() {
+            if crate::panichook::in_library(&loc) {
+                rep.violate("C07/panic-in-library-task", format!("{c:?}: panic at {loc}: {msg}"));
+            }
+        }
+        let Ok((outs, done, log)) = res else {
+            if rep.violations.is_empty() {
+                rep.internal_error = Some(format!("harness panic at {}: {}", crate::panichook::last_location(), crate::panichook::last_message()));
+            }
+            return rep;
+        };
+        let sig = c.signal_ms as u64;
+        let desc = format!("{c:?}: make-service log (connection, accepted, service available) {log:?}; serving future {done:?}");
+        match &done {
+            Some((Ok(()), t)) if *t == sig => {}
+            Some((Ok(()), t)) => rep.violate("C07/server-future-not-resolved-at-signal", format!("{desc}: resolved at {t} ms, the signal fired at {sig} ms")),
+            Some((Err(e), _)) => rep.violate("C07/server-future-failed", format!("{desc}: {e}")),
+            None => rep.violate("C07/server-future-not-resolved-at-signal", format!("{desc}: still pending long after the signal at {sig} ms")),
+        }
+        for (i, connected, bytes, eof, t_end) in &outs {
+            let text = String::from_utf8_lossy(bytes);
+            let answered = text.starts_with("HTTP/1.1 200") && text.contains("gate-ok");
+            // connect requests queue up in the order they are made (start time, then spawn order); the
+            // listener acknowledges them in that order: the k-th connection belongs to the k-th client of it
+            let mut order: Vec<(u8, usize)> = c.clients.iter().enumerate().map(|(k, (start, _))| (*start, k)).collect();
+            order.sort();
+            let conn_id = order.iter().position(|(_, cl)| cl == i);
+            let avail = conn_id.and_then(|k| log.iter().find(|(id, _, _)| *id == k)).map(|(_, _, a)| *a);
+            match avail {
+                Some(a) if a > sig && answered => {
+                    rep.violate("C07/connection-served-after-signal", format!("{desc}: client {i} (connected at {connected} ms) was answered although the service for its connection only became available at {a} ms, after the signal at {sig} ms"));
+                }
+                Some(a) if a < sig && *connected != u64::MAX && !answered && !(c.idle_first && *i == 0 && false) => {
+                    // its exchange started before the signal (request written at connect): must be answered
+                    if a + 1 < sig {
+                        rep.violate("C07/in-flight-request-lost/make-gate", format!("{desc}: client {i} connected at {connected} ms, its service was available at {a} ms, before the signal at {sig} ms, but it received {:?}", &text[..text.len().min(60)]));
+                    }
+                }
+                _ => {}
+            }
+            if c.idle_first && *i == 0 && *connected != u64::MAX && *connected < sig {
+                rep.class("idle-keep-alive-connection-at-signal");
+                if !*eof {
+                    rep.violate("C07/idle-connection-not-closed", format!("{desc}: the idle keep-alive connection of client 0 was still open 3 s after its last byte (signal at {sig} ms, observed until {t_end} ms)"));
+                }
+            }
+        }
+        if log.iter().any(|(_, acc, avail)| *acc <= sig && *avail > sig) || c.clients.iter().any(|(s, d)| (*s as u64) <= sig && *d == 255) {
+            rep.class("signal-while-make-service-pending");
+        }
+        if c.not_ready_ms > 0 {
+            rep.class("make-service-not-ready-for-a-while");
+        }
+        rep.class("make-gate");
+        rep.nontrivial = rep.classes.contains(&"signal-while-make-service-pending");
+        rep.total_ops = c.clients.len() as u64;
+        rep
+    }
+}
+
+pub fn makegate_strategy() -> impl proptest::strategy::Strategy<Value = MakeGateCase> {
+    use proptest::prelude::*;
+    (
+        0u8..2,
+        proptest::collection::vec((prop_oneof![2 => Just(0u8), 2 => 0u8..40], prop_oneof![3 => Just(0u8), 3 => 1u8..40, 1 => Just(255u8)]), 1..5),
+        0u8..50,
+        any::<bool>(),
+        prop_oneof![3 => Just(0u8), 1 => 1u8..30],
+    )
+        .prop_map(|(proto, clients, signal_ms, idle_first, not_ready_ms)| MakeGateCase { proto, clients, signal_ms, idle_first, not_ready_ms })
 }
